@@ -499,7 +499,9 @@ def _run_optim_once(cfg: dict, letters: list[int]):
     M, p = cfg["M"], cfg["p"]
     script = [OPT_POS[a] for a in letters] + [OPT_POS[0]] * (M + 1 - len(letters))
     model = mean_model(Y_TRAIN, OPT_POS[cfg["init"]])
-    mval = None if cfg["val"] == "none" else mean_model(Y_VAL[cfg["val"]], OPT_POS[cfg["init"]])
+    # the validation model is a separately built object whose own parameter value differs from the
+    # training model's start value: only the POSITION is pushed through it
+    mval = None if cfg["val"] == "none" else mean_model(Y_VAL[cfg["val"]], OPT_POS[(cfg["init"] + 1) % len(OPT_POS)])
     stopper = Stopper(max_iter=M, patience=p, atol=cfg["atol"], rtol=cfg["rtol"])
     r = optim_flat(
         model,
